@@ -163,7 +163,10 @@ def r18_1(ck):
                'get_data(query) no longer iterates all times x all paths')
     st = [s for s in A.walk_no_nested(gd.node) if isinstance(s, ast.Assign)
           and isinstance(s.targets[0], ast.Subscript) and A.unparse(
-              s.targets[0].value) == 'returned_data']
+              s.targets[0].value) in {
+                  r.value.id for r in A.walk_no_nested(gd.node)
+                  if isinstance(r, ast.Return)
+                  and isinstance(r.value, ast.Name)}]
     ok = bool(st) and all(cfg.guards(cfg.node(s)) <= {
         ('truthy', A.params_of(gd.node)[1])} for s in st)
     ck.require(ok, 'R18.1', gd, st[0] if st else gd.node.name,
